@@ -138,9 +138,10 @@ var c08Rewrites = []rewrite{
 	}},
 	{"indent", func(src []byte, r vlib.Rnd) ([]byte, func(int) int) {
 		pfx := vlib.Pick(r, []string{"  ", "\t", "    ", " "})
+		all := r.Intn(2) == 0 // an editor may indent the empty lines too (lines of blanks only are empty lines)
 		var sb strings.Builder
 		for _, l := range splitLinesKeep(src) {
-			if strings.TrimRight(l, "\r\n") == "" {
+			if !all && strings.TrimRight(l, "\r\n") == "" {
 				sb.WriteString(l)
 			} else {
 				sb.WriteString(pfx + l)
